@@ -553,6 +553,87 @@ func c15SitesGen(g *hx.Gen) {
 	}
 }
 
+// ---- c15.inspect ----
+
+// spellings of a handful of sites: case, redundant / implied / service-name ports, scheme or not, IP notations, paths
+func c15Spellings() []string {
+	var out []string
+	hosts := []string{"example.com", "EXAMPLE.com", "sub.example.com", "10.0.0.1", "[::1]", "[0:0::1]", "[2001:DB8::1]", "[2001:db8::1]", "localhost", ""}
+	for _, h := range hosts {
+		for _, s := range []string{"", "http", "https", "HTTP"} {
+			for _, p := range []string{"-", "80", "443", "2015", "8080", "http", "https"} {
+				if h == "" && p == "-" {
+					continue
+				}
+				ls := strings.ToLower(s)
+				if (ls == "http" && (p == "443" || p == "https") || ls == "https" && (p == "80" || p == "http")) && h != "example.com" {
+					continue // scheme and port violate convention: one host is enough
+				}
+				out = append(out, c15ComposeAddr(s, h, p, ""))
+			}
+		}
+	}
+	for _, h := range []string{"example.com", "EXAMPLE.com", "[::1]"} {
+		for _, pa := range []string{"/a", "/A", "/a/", "/b"} {
+			out = append(out, h+pa, "http://"+h+pa, h+":2015"+pa, h+":8080"+pa)
+		}
+	}
+	out = append(out, "ftp://example.com:21", "ftp://example.com:22", "ftp://example.com", "::1", "[::1]:81", "[::1]:82", "[1:0:0:0:0:0:0:2]:0", "[1::2]:0",
+		"127.0.0.1", "127.0.0.1:2015", "http://127.0.0.1:2015", "*.example.com", "*.EXAMPLE.com:443")
+	return out
+}
+
+func c15InspectGen(g *hx.Gen) {
+	sp := c15Spellings()
+	for _, a := range sp {
+		g.Case(c15Q(a))
+	}
+	// all pairs over the spellings of two hosts; sampled pairs over everything
+	var core []string
+	for _, a := range sp {
+		l := strings.ToLower(a)
+		if strings.Contains(l, "example.com") && !strings.Contains(l, "sub.") && !strings.Contains(l, "ftp") || strings.Contains(l, "::1") {
+			core = append(core, a)
+		}
+	}
+	for _, pr := range [][2]string{{"[::1]:81", "[::1]:82"}, {"[::1]:81", "[0:0::1]:81"}, {"example.com", "example.com:2015"}, {"example.com:80", "http://example.com"},
+		{"http://example.com:80", "http://example.com"}, {"example.com:443", "https://EXAMPLE.com"}, {"example.com:http", "example.com:80"}, {"10.0.0.1", "http://10.0.0.1:2015"},
+		{"ftp://example.com:21", "ftp://example.com:22"}, {"[1:0:0:0:0:0:0:2]:0", "[1::2]:0"}, {"example.com/a", "example.com/A"}, {"example.com/a", "example.com/b"}} {
+		g.Case(c15Q(pr[0]) + "," + c15Q(pr[1]))
+		g.Case(c15Q(pr[1]) + "," + c15Q(pr[0]))
+	}
+	for _, a := range core {
+		for _, b := range core {
+			if !g.Thorough() && g.Rng.Intn(4) != 0 {
+				continue
+			}
+			g.Case(c15Q(a) + "," + c15Q(b))
+		}
+	}
+	N := 6000
+	if g.Thorough() {
+		N = 150000
+	}
+	for i := 0; i < N; i++ {
+		r := g.Rng
+		n := 2 + r.Intn(3)
+		pool := core
+		if r.Chance(1, 3) {
+			pool = sp
+		}
+		ks := make([]string, n)
+		for j := range ks {
+			ks[j] = c15Q(hx.Pick(r, pool))
+		}
+		g.Case(strings.Join(ks, ","))
+	}
+}
+
+// ---- c15.activate ----
+
+// the same site sets as c15.sites (the generator is deterministic in the seed of its own stream)
+func c15ActivateGen(g *hx.Gen) { c15SitesGen(g) }
+
 // ---- c15.redirect ----
 
 var c15HostHeaders = []string{"example.com", "example.com:80", "EXAMPLE.com", "example.com:", "example.com:8080", "a_b.example.com", "[::1]", "[::1]:80", "[2001:db8::1]:8080", "[2001:DB8::1]",
